@@ -308,7 +308,7 @@ class Sim(object):
             if n is None and not (isinstance(node, str) and node.startswith("client:")):
                 raise
             import traceback
-            self.errors.append(("callback", node, repr(e), traceback.format_exc()[-1500:]))
+            self.errors.append(("callback", node, repr(e), traceback.format_exc()[-4000:]))
             self.log("CBERR", node, type(e).__name__)
             self.count("callback_exception")
             if n is not None and n.transport == "blocking" and not n.dead:
